@@ -20,11 +20,21 @@ VERSIONS = ['1', '1.0-1', '2:1.0~rc1-1+b1', '0.9.8zh-1', '1.2.3+dfsg', '1:2:3', 
 DISTS = ['unstable', 'stable-security', 'UNRELEASED', 'bookworm-backports', 'sid', 'experimental', 'a.b', 'x+y',
          'stable']
 URGENCIES = ['low', 'medium', 'high', 'emergency', 'critical', 'HIGH', 'Low', 'unknown']
-URG_COMMENTS = [' (HIGH for users of diversions)', ' (security)', ' (see NEWS)', ' HIGH for users of diversions']
+# characters (and look-alikes of conversion / replacement fields) that have a special meaning in Python string
+# formatting: %-formatting, str.format, string.Template, re.sub replacement templates.  A changelog is free text:
+# every one of them may occur in a change line, an author name, a heading value or a stray line.
+FMT_CORE = ['%', '%s', '%d', '%(x)s', '100%', '%%', '{', '}', '{0}', '\\']
+FMT_EXTRA = ['{}', '{x', '%(x', '%r', '\\1', '\\g<x>', '${x}', '%c', '%*d', '{0.a}', '{:{w}}']
+FMT_TOKENS = FMT_CORE + FMT_EXTRA
+
+URG_COMMENTS = [' (HIGH for users of diversions)', ' (security)', ' (see NEWS)', ' HIGH for users of diversions',
+                ' (100% sure)', ' ({0} %s)', ' \\ %d {']
 EXTRAS = [('binary-only', 'yes'), ('closes', '123'), ('XS-Foo', 'bar baz'), ('medium-urgency', 'x=y'),
-          ('Binary-Only', 'no'), ('x', 'a;b'), ('k9', 'v (w)')]
-NAMES = ['A B', 'Zo\u00eb Q. X', 'a', 'A (x) B', "O'Neil, jr.", 'A <weird> B', '\u6f22\u5b57']
-MAILS = ['a@b.c', 'x@y', 'first.last+tag@example.org', '']
+          ('Binary-Only', 'no'), ('x', 'a;b'), ('k9', 'v (w)'),
+          ('pct', '100%'), ('fmt', '%s {0} \\'), ('x-brace', '{'), ('K2', '%(x)s}')]
+NAMES = ['A B', 'Zo\u00eb Q. X', 'a', 'A (x) B', "O'Neil, jr.", 'A <weird> B', '\u6f22\u5b57',
+         '100% Me', 'A %s B', '%(x)s', 'Curly {0} B', 'Open { Brace', 'Back\\slash', '%d %% }']
+MAILS = ['a@b.c', 'x@y', 'first.last+tag@example.org', '', 'a%sb@c.d', '{0}@x\\y']
 CHANGE_PREFIX = ['  * ', '    ', '  [ X ]', '   - ', '  ', '  + ']
 CHANGE_ALPHA = 'ab c:#\u00e9\u6f22-*.;,=()<>'
 
@@ -50,6 +60,9 @@ def change(r):
     k = r.random()
     if k < 0.08:
         s += r.choice(['  ', ' ', '\t'])          # trailing whitespace must survive verbatim
+    if r.random() < 0.25:                          # formatting look-alike somewhere after the indentation
+        i = r.randint(2, len(s))
+        s = s[:i] + r.choice(FMT_TOKENS) + s[i:]
     return s
 
 
@@ -158,15 +171,118 @@ JUNK = {
     'blank-ish': ['', '  ', '\t', ' '],
     'change-ok': ['  * plain change', '    continuation', '  [ Somebody ]'],
 }
+BASE_CLASSES = sorted(JUNK)
+
+# Formatting look-alikes in every KIND of line the parser can report (in a warning or in ChangelogParseError):
+# the rejected key=value pair, the rejected urgency value, a stray line in each of the four line states, a badly
+# spaced trailer - and in the kinds it accepts silently (rich heading, change, comment, regular trailer), so that
+# the silent path is exercised with the same characters.  One spelling per token; the templates rotate.  Class names
+# keep the prefixes heading- / trailer- so that the heading / trailer families below pick them up.
+FMT_TEMPLATES = {
+    # reported as "Invalid key-value pair after ';': <pair>"
+    'heading-fmt-bad-pairs': ['pkg (1.0) unstable; \x01', 'pkg (1.0) unstable; urgency=low, \x01',
+                              'pkg (1.0) unstable; urgency=low, a \x01 b, k=v'],
+    # reported as "Badly formatted urgency value: <value>"
+    'heading-fmt-bad-urgency': ['pkg (1.0) unstable; urgency=\x01', 'pkg (1.0) unstable; urgency=low\x01',
+                                'pkg (1.0) unstable; Urgency=\x01 (x), k=v'],
+    # reported as "Repeated key-value: <key>" (the values carry the token)
+    'heading-fmt-repeated-key': ['pkg (1.0) unstable; urgency=low, k=\x01, K=\x01', 'pkg (1.0) unstable; urgency=low \x01, urgency=high \x01'],
+    # accepted silently: token in the urgency comment / in the value of an extra pair
+    'heading-fmt-rich': ['pkg (1.0) unstable; urgency=low (\x01), k=\x01', 'pkg (1.0) unstable; urgency=low \x01',
+                         'pkg (1.0) unstable; k=a \x01 b'],
+    # token inside the parentheses: accepted as raw version, or (token with parentheses) a stray line
+    'heading-fmt-odd-version': ['pkg (1.0\x01) unstable; urgency=low', 'pkg (\x01) unstable; urgency=low'],
+    # no ';' / token in the package name: stray line (old-format look-alike after a block)
+    'heading-fmt-no-semicolon': ['pkg (1.0) unstable urgency=\x01', 'pkg (1.0) \x01'],
+    'heading-fmt-odd-package': ['\x01 (1.0) unstable; urgency=low', 'pkg\x01 (1.0) unstable; urgency=low'],
+    # reported as "Badly formatted trailer line: <line>" and accepted (one space before the date)
+    'trailer-fmt-one-space': [' -- \x01 Name <a@b> ' + _TR, ' -- A B <a\x01@b.c> ' + _TR, ' -- \x01 <\x01> 31 Dec 1999 23:59:59 -1200'],
+    # accepted silently
+    'trailer-fmt-ok': [' -- \x01 Name <a@b>  ' + _TR, ' -- A <\x01>  ' + _TR],
+    # not a trailer: reported as an unexpected line
+    'trailer-fmt-bad': [' -- \x01 <b>  bad date \x01', ' -- A \x01 <b>   ' + _TR, ' -- \x01', ' --\x01', '-- \x01 <b>  ' + _TR],
+    # stray text: reported as "Unexpected line while looking for <state>: <line>" in all four line states
+    'fmt-text': ['\x01', 'progress \x01 done', '\x01 \x01', '\x01:', 'x\x01'],
+    'fmt-one-space-line': [' \x01', ' * \x01 item'],
+    'fmt-tab-line': ['\t\x01', '\t* \x01 change with one tab'],
+    'fmt-non-ascii': ['\u00e9 \x01 \u6f22', '\u00a0\u00a0* \x01 nbsp indent'],
+    # accepted silently inside the changes
+    'fmt-change': ['  * \x01', '    \x01 continuation', '  [ \x01 ]', '  * a \x01 b \x01'],
+    # accepted silently in every state (comment / CVS keyword forms)
+    'fmt-comment': ['# \x01', '/* \x01 */', '$Id: \x01 $'],
+    # mode lines / old-format headings: stray before the first heading and inside the changes, slurped after a block
+    'fmt-mode-line': ['vim: set ts=\x01', 'Local variables: \x01', ';; Local variables: \x01'],
+    'fmt-old-format': ['Changes from version \x01 to \x01:', 'pkg-1.0 Debian \x01', 'Mon Jan 1, 2001  \x01 <a@b>', 'Old Changelog: \x01'],
+}
+# JUNK[class] (used by the enumerations) holds one spelling per token, the templates rotating; three classes (one
+# reported heading value, one reported trailer, stray text) get the extra tokens too.  FMT_ALL[class] is the full
+# template x token product, drawn from by the random generators.
+_FMT_ALL_TOKENS = ('heading-fmt-bad-pairs', 'trailer-fmt-one-space', 'fmt-text')
+FMT_ALL = {}
+for _c, _tpls in sorted(FMT_TEMPLATES.items()):
+    _toks = FMT_TOKENS if _c in _FMT_ALL_TOKENS else FMT_CORE
+    JUNK[_c] = []
+    for _n, _t in enumerate(_toks):
+        _l = _tpls[_n % len(_tpls)].replace('\x01', _t)
+        if _l not in JUNK[_c]:
+            JUNK[_c].append(_l)
+    FMT_ALL[_c] = list(JUNK[_c])
+    for _tpl in _tpls:
+        for _t in FMT_TOKENS:
+            _l = _tpl.replace('\x01', _t)
+            if _l not in FMT_ALL[_c]:
+                FMT_ALL[_c].append(_l)
+FMT_CLASSES = sorted(FMT_TEMPLATES)
+
 JUNK_CLASSES = sorted(JUNK)
 JUNK_CLASS_OF = {}
-for _c, _ls in JUNK.items():
-    for _l in _ls:
+for _c in BASE_CLASSES + FMT_CLASSES:           # a spelling that exists in both keeps its old class
+    for _l in JUNK[_c] + FMT_ALL.get(_c, []):
         JUNK_CLASS_OF.setdefault(_l, _c)
 
 
+def spelling(r, cls):
+    """A random spelling of a junk class (for the look-alike classes: any template with any token)."""
+    return r.choice(FMT_ALL[cls] if cls in FMT_ALL else JUNK[cls])
+
+
 def junk_line(r):
-    return r.choice(JUNK[r.choice(JUNK_CLASSES)])
+    """A junk spelling; one in four comes from the formatting look-alike classes."""
+    if r.random() < 0.25:
+        return spelling(r, r.choice(FMT_CLASSES))
+    return spelling(r, r.choice(BASE_CLASSES))
+
+
+def fmt_kinds(s):
+    """Which families of formatting-special characters a string contains (evidence only)."""
+    out = []
+    if '%' in s:
+        out.append('percent')
+    if '{' in s or '}' in s:
+        out.append('brace')
+    if '\\' in s:
+        out.append('backslash')
+    return out
+
+
+_MULTI = sorted([t for t in FMT_TOKENS if len(t) > 1], key=lambda t: (-len(t), t))
+
+
+def fmt_tokens(s):
+    """Which of the ten core look-alikes occur in a string (evidence only): multi-character tokens first, then
+    whatever single special characters are left over."""
+    out = []
+    for t in _MULTI:
+        if t in s:
+            if t in FMT_CORE:
+                out.append(t)
+            s = s.replace(t, ' ')
+    for t in ('%', '{', '}'):
+        if t in s:
+            out.append(t)
+    if '\\' in s:
+        out.append('backslash')
+    return out
 
 
 # --------------------------------------------------------------------------
@@ -223,7 +339,7 @@ def mutate(r, lines, nops):
                 pool = [k for k in JUNK_CLASSES if k.startswith('trailer') or k == 'bare-trailer']
             else:
                 pool = JUNK_CLASSES
-            j = r.choice(JUNK[r.choice(pool)])
+            j = spelling(r, r.choice(pool))
             applied.append('rep:%s>%s' % (c, JUNK_CLASS_OF[j]))
             lines[i] = j
             continue
@@ -293,8 +409,11 @@ TRAILER_FAMILY = [k for k in JUNK_CLASSES if k.startswith('trailer') or k == 'ba
 HEADING_FAMILY = [k for k in JUNK_CLASSES if k.startswith('heading') or k.startswith('old3')]
 BETWEEN_FAMILY = ['hash-comment', 'hash-near-miss', 'c-comment', 'c-comment-near-miss', 'cvs-keyword', 'cvs-near-miss',
                   'generic-text', 'non-ascii', 'tab-line', 'one-space-line', 'emacs-near-miss', 'vim-near-miss',
-                  'blank-ish', 'change-ok', 'trailer-ok', 'bare-trailer', 'trailer-one-space']
-SLURP_FAMILY = [k for k in JUNK_CLASSES if k.startswith('old') or k in ('emacs-mode', 'vim-mode')]
+                  'blank-ish', 'change-ok', 'trailer-ok', 'bare-trailer', 'trailer-one-space',
+                  'fmt-text', 'fmt-one-space-line', 'fmt-tab-line', 'fmt-non-ascii', 'fmt-change', 'fmt-comment',
+                  'trailer-fmt-ok', 'trailer-fmt-one-space', 'trailer-fmt-bad']
+SLURP_FAMILY = [k for k in JUNK_CLASSES if k.startswith('old') or k in ('emacs-mode', 'vim-mode', 'fmt-mode-line',
+                                                                         'fmt-old-format')]
 MULTI_FAMILIES = ['own-trailer-one-space', 'own-trailer-one-space', 'own-trailer-one-space', 'trailer-junk', 'trailer-junk',
                   'heading-junk', 'heading-junk', 'own-heading-variant', 'own-heading-variant', 'between', 'between',
                   'in-changes', 'layout', 'slurp']
@@ -318,7 +437,13 @@ def one_space_trailer(line):
 def heading_variant(r, h):
     """An irregular spelling of the regular heading `h` (same package/version/distributions)."""
     head, sep, pairs = h.partition('; ')
-    k = r.randrange(9)
+    k = r.randrange(12)
+    if k == 9:
+        return head + '; ' + pairs + ', ' + r.choice(FMT_TOKENS)            # invalid pair that is a look-alike
+    if k == 10:
+        return head + '; ' + pairs.replace('urgency=', 'urgency=' + r.choice(FMT_TOKENS), 1)   # bad urgency value
+    if k == 11:
+        return head + '; ' + pairs + ', fmtk=a ' + r.choice(FMT_TOKENS)     # accepted extra pair
     if k == 0:
         return h + ', urgency=high'                       # repeated key (warning, last one wins)
     if k == 1:
@@ -351,11 +476,11 @@ def irregularise(r, b, family):
             return b, 'own-trailer-one-space'
     if family in ('own-trailer-one-space', 'trailer-junk') and ti is not None:
         cls = r.choice(TRAILER_FAMILY)
-        b[ti] = r.choice(JUNK[cls])
+        b[ti] = spelling(r, cls)
         return b, 'trailer-junk:' + cls
     if family == 'heading-junk':
         cls = r.choice(HEADING_FAMILY)
-        b[0] = r.choice(JUNK[cls])
+        b[0] = spelling(r, cls)
         return b, 'heading-junk:' + cls
     if family == 'own-heading-variant' and '; ' in b[0]:
         b[0] = heading_variant(r, b[0])
@@ -364,12 +489,12 @@ def irregularise(r, b, family):
         at = (ti + 1) if ti is not None else len(b)
         for _ in range(r.choice([1, 1, 2])):
             cls = r.choice(BETWEEN_FAMILY)
-            b.insert(r.randint(at, len(b)), r.choice(JUNK[cls]))
+            b.insert(r.randint(at, len(b)), spelling(r, cls))
         return b, 'between'
     if family == 'slurp':
         at = (ti + 1) if ti is not None else len(b)
         cls = r.choice(SLURP_FAMILY)
-        b.insert(r.randint(at, len(b)), r.choice(JUNK[cls]))
+        b.insert(r.randint(at, len(b)), spelling(r, cls))
         return b, 'slurp'
     if family == 'layout' and ti is not None:
         k = r.randrange(6)
@@ -390,7 +515,7 @@ def irregularise(r, b, family):
     # in-changes (also the fallback when the block has no trailer)
     hi = ti if ti is not None else len(b)
     cls = r.choice(JUNK_CLASSES)
-    b.insert(r.randint(1, max(1, hi)), r.choice(JUNK[cls]))
+    b.insert(r.randint(1, max(1, hi)), spelling(r, cls))
     return b, 'in-changes'
 
 
